@@ -318,7 +318,9 @@ func runC07Case(cc *c07Case) *c07Result {
 			continue
 		}
 		res.obs["pending_completed"]++
-		if p.q.Resp.Status == 200 {
+		// (a handler that returns without ever calling WriteHeader or Write makes net/http send
+		// "200 OK" with an empty body: status 0 of the recorder is a 200 on the wire)
+		if p.q.Resp.Status == 200 || p.q.Resp.Status == 0 {
 			fail("status/"+p.kind, "pending %s request %s completed with status 200 after Close", p.kind, p.q.URL)
 		}
 		if p.q.Resp.Panic != "" {
@@ -363,7 +365,7 @@ func runC07Case(cc *c07Case) *c07Result {
 		if q.Resp.Panic != "" {
 			fail("later-panic", "request %s issued after Close panicked: %s", u, q.Resp.Panic)
 		}
-		if strings.HasSuffix(strings.Split(u, "?")[0], ".m3u8") && q.Resp.Status == 200 {
+		if strings.HasSuffix(strings.Split(u, "?")[0], ".m3u8") && (q.Resp.Status == 200 || q.Resp.Status == 0) {
 			fail("later-200", "playlist request %s issued after Close returned 200", u)
 		}
 	}
